@@ -2,27 +2,28 @@
 EXTENDS TextCodecs, TraceBase
 
 V(clause, exp, got) == <<clause, exp, got>>
+VS(clause, exp, got) == <<clause, Cut(exp), Cut(got)>>
 OK == <<>>
 \* purity: every slice argument's backing array (up to cap) is unchanged
 Pure(e) == IF "mem0" \in DOMAIN e THEN e.mem0 = e.mem1 ELSE TRUE
 
 Verdict(e) ==
   IF "panic" \in DOMAIN e THEN V("panic", e.op, e.panic)
-  ELSE IF ~Pure(e) THEN V("argument-memory-modified", e.mem0, e.mem1)
+  ELSE IF ~Pure(e) THEN VS("argument-memory-modified", e.mem0, e.mem1)
   ELSE
   CASE e.op = "B58Encode" ->
-         LET x == B58Enc(e.b) IN IF x = e.ret THEN OK ELSE V("base58-encode", x, e.ret)
+         LET x == B58Enc(e.b) IN IF x = e.ret THEN OK ELSE VS("base58-encode", x, e.ret)
     [] e.op = "B58Decode" ->
-         LET x == B58Dec(e.s) IN IF x = e.ret THEN OK ELSE V("base58-decode", x, e.ret)
+         LET x == B58Dec(e.s) IN IF x = e.ret THEN OK ELSE VS("base58-decode", x, e.ret)
     [] e.op = "CheckEncode" ->
          IF EnvGet(e.env, "sha256d", <<e.ver>> \o e.b) = Missing THEN EnvMissingV("sha256d")
-         ELSE LET x == CheckEnc(e.env, e.ver, e.b) IN IF x = e.ret THEN OK ELSE V("check-encode", x, e.ret)
+         ELSE LET x == CheckEnc(e.env, e.ver, e.b) IN IF x = e.ret THEN OK ELSE VS("check-encode", x, e.ret)
     [] e.op = "CheckDecode" ->
          LET d == B58Dec(e.s) IN
          IF Len(d) >= 5 /\ EnvGet(e.env, "sha256d", SubSeq(d, 1, Len(d) - 4)) = Missing THEN EnvMissingV("sha256d")
          ELSE LET x == CheckDec(e.env, e.s)
                   got == [ok |-> e.ok, err |-> e.err, ver |-> e.ver, payload |-> e.ret]
-              IN IF x = got THEN OK ELSE V("check-decode", x, got)
+              IN IF x = got THEN OK ELSE V("check-decode", [x EXCEPT !.payload = Cut(@)], [got EXCEPT !.payload = Cut(@)])
     [] e.op = "Bech32Encode" ->
          LET x == Bech32Enc(e.hrp, e.data)  got == [ok |-> e.ok, s |-> e.ret]
          IN IF x = got THEN OK ELSE V("bech32-encode", x, got)
@@ -31,10 +32,11 @@ Verdict(e) ==
          IN IF x = got THEN OK ELSE V("bech32-decode", x, got)
     [] e.op = "ConvertBits" ->
          LET x == ConvertBitsSpec(e.data, e.from, e.to, e.pad)  got == [ok |-> e.ok, out |-> e.ret]
-         IN IF x = got THEN OK ELSE V("convert-bits", x, got)
+         IN IF x = got THEN OK ELSE V("convert-bits", [x EXCEPT !.out = Cut(@)], [got EXCEPT !.out = Cut(@)])
     [] OTHER -> V("unknown-op", e.op, e.op)
 
-StepF(s, e) == [st |-> s, v |-> Verdict(e)]
+V3(p, e, s) == Verdict(e)
 Init == TInit(0)
-Next == TNext(StepF)
+Next == TNext(Same)
+JudgeInv == Judge(V3)
 =============================================================================
